@@ -50,6 +50,9 @@ class E:
             return ("call", self.extra) + tuple(x.skey() for x in self.a)
         if self.k == "local":
             return ("local", self.extra)
+        if self.k == "const":
+            d = self.extra or {}
+            return ("const", d.get("val", d.get("def", d.get("txt"))))
         return (self.k, self.extra if not isinstance(self.extra, dict) else None) + tuple(x.skey() for x in self.a)
 
     def walk(self):
